@@ -40,6 +40,7 @@ def step (s : St) (ts : List String) : St × List String :=
   | ["contract", a, b] =>
     if mem s.c (sortN [natD a, natD b]) && linkCondition s.c (natD a) (natD b) then ({ s with c := contract s.c (natD a) (natD b) }, ["contract 1"])
     else (s, ["contract 0"])
+  | ["copy", _] => (s, ["copy"])   -- copy construction / assignment: the complex is unchanged
   | ["obs"] => (s, obs s)
   | _ => (s, ["bad-op"])
 
